@@ -298,8 +298,9 @@ impl Request {
             }
             r.consume(": ").ok_or_else(Response::BadRequest)?;
             let value = r.read_while(|b| b != &b'\r');
-            if std::str::from_utf8(value).is_err() {
-                /* header accessors assume UTF-8 values */
+            if std::str::from_utf8(value).is_err()
+            || value.iter().any(|b| b.is_ascii_control() && *b != b'\t') {
+                /* header accessors assume UTF-8 values, and control characters ( NUL .. ) are not allowed in them */
                 return Err(Response::BadRequest())
             }
             let value = CowSlice::Ref(Slice::from_bytes(value));
